@@ -1,12 +1,12 @@
 #!/bin/sh
 # tools/process_mutants.sh Cxx [n] : confirm /tmp/mut-Cxx-out/m1..mn, store as seeded/Cxx-sK, run the check against each
-p=$1; n=${2:-2}
+p=$1; n=${2:-2}; pre=${3:-mut}
 cd "$(dirname "$0")/.." || exit 2
 base=$(ls -d seeded/$p-m* 2>/dev/null | wc -l)
 for k in $(seq 1 $n); do
   id=$p-m$((base + k))
-  [ -f /tmp/mut-$p-out/m$k.diff ] || { echo "no m$k for $p"; continue; }
-  tools/confirm_mutant.sh /tmp/mut-$p-out $k $id || continue
+  [ -f /tmp/$pre-$p-out/m$k.diff ] || { echo "no m$k for $p"; continue; }
+  tools/confirm_mutant.sh /tmp/$pre-$p-out $k $id || continue
   tools/seedcheck.sh $id quick
 done
-git -C /repo worktree remove --force /tmp/mut-$p 2>/dev/null
+git -C /repo worktree remove --force /tmp/$pre-$p 2>/dev/null
